@@ -88,6 +88,11 @@ def strict_forwarded(prog, rep, rule="FWD-1"):
     for qn in ("section.BaseSection.link.setter", "section.BaseSection.include.setter"):
         f = prog.func(qn)
         cs = [c for c in calls_in(f.node) if call_name(c) == "%s.merge" % f.params[0]]
+        if not cs:
+            # the tail shared by the two setters may live in a private helper (whose self is the setter's self)
+            from ..symtext import effect_calls
+            cs = [e.call for e in effect_calls(prog, f, lambda c: isinstance(c.func, ast.Attribute) and c.func.attr == "merge"
+                                               and isinstance(c.func.value, ast.Name) and c.func.value.id in ("self", f.params[0]))]
         good = len(cs) == 1 and any(k.arg == "strict" and isinstance(k.value, ast.Constant) and k.value.value is False for k in cs[0].keywords)
         rep.check(good, rule, "%s resolves with strict=False" % f.short, "ok",
                   "%s does not call self.merge(target, strict=False) exactly once" % f.short, f.where,
@@ -127,16 +132,40 @@ def merge_adds_clones(prog, rep, S, rule="ALIAS-4"):
         rep.check(it_ok, rule, "merge iterates the source Section", unparse(lp.iter),
                   "merge iterates %s instead of the source Section: children are missed" % unparse(lp.iter), where(f, lp),
                   witness="properties or sub-sections of the source are not merged")
-        escapes = [n for n in ast.walk(lp) if isinstance(n, (ast.Continue, ast.Break, ast.Return))]
+        escapes = [n for n in ast.walk(lp) if isinstance(n, (ast.Break, ast.Return))]
         rep.check(not escapes, rule, "merge loop has no early exit", "ok",
                   "the merge loop contains %s: some source children are skipped" % [type(e).__name__ for e in escapes], where(f, lp),
                   witness="a source child after the skipped position is missing in the destination")
-        body = [s for s in lp.body]
-        shape = len(body) == 2 and isinstance(body[0], ast.Assign) and isinstance(body[1], ast.If) and body[1].orelse
-        rep.check(shape, rule, "merge loop: select counterpart, then merge-or-clone", "assign + if/else",
-                  "the loop body is not `mine = self.contains(obj); if ...: merge else: clone+append`", where(f, lp))
-        sel = body[0].value if shape else None
-        rep.check(sel is not None and isinstance(sel, ast.Call) and call_name(sel) == "%s.contains" % f.params[0]
-                  and len(sel.args) == 1 and unparse(sel.args[0]) == unparse(lp.target), rule,
+        # every completed iteration merged the child into its counterpart or added a clone (whatever the branch layout: if/else, or
+        # `if mine is not None: merge; continue` followed by the clone)
+        from ..logic import reach_avoiding
+        hd = [n for n in g.nodes if n.kind == "for" and n.ast is lp]
+        sel_calls = [c for c in ast.walk(lp) if isinstance(c, ast.Call) and call_name(c) == "%s.contains" % f.params[0]
+                     and len(c.args) == 1 and unparse(c.args[0]) == unparse(lp.target)]
+        sel_names = set(st.targets[0].id for st in ast.walk(lp) if isinstance(st, ast.Assign) and len(st.targets) == 1
+                        and isinstance(st.targets[0], ast.Name) and st.value in sel_calls)
+        acts = set()
+        for n in g.nodes:
+            for r in n.expr_roots():
+                for c in ast.walk(r):
+                    if isinstance(c, ast.Call) and isinstance(c.func, ast.Attribute):
+                        if c.func.attr == "merge" and isinstance(c.func.value, ast.Name) and c.func.value.id in sel_names:
+                            acts.add(n.id)
+                        if c.func.attr in ("append", "insert") and (unparse(c.func.value) == me or unparse(c.func.value).startswith(me + "._")):
+                            acts.add(n.id)
+                        if c.func.attr.startswith("_") and unparse(c.func.value) == me and any(a0.func is ap.func for ap in appends for a0 in [ap] if ap.node is n):
+                            acts.add(n.id)
+        for ap in appends:
+            acts.add(ap.node.id)
+        idle = False
+        for h0 in hd:
+            for k0, first in h0.succ:
+                if k0 == "iter" and reach_avoiding(g, first, h0, lambda src, kind, dst: dst.id in acts or src.id in acts, skip_kinds=("exc",)) \
+                        and first.id not in acts:
+                    idle = True
+        rep.check(bool(hd) and not idle, rule, "merge loop: every source child is merged or cloned", "each iteration passes a merge or an append",
+                  "an iteration of the merge loop can finish without merging the child into its counterpart and without adding a clone", where(f, lp),
+                  witness="a source child is silently left out of the destination")
+        rep.check(bool(sel_calls), rule,
                   "merge selects the counterpart with self.contains(child)", "ok",
                   "the counterpart is not selected with self.contains(<loop variable>)", where(f, lp))
